@@ -262,14 +262,12 @@ def real_os_leg(seed, dec, cfg, prog, sim_rc):
         finally:
             os._exit(status)
     os.close(w)
-    acks = b""
-    while True:
-        chunk = os.read(r, 65536)
-        if not chunk:
-            break
-        acks += chunk
-    os.close(r)
-    _pid, st = os.waitpid(pid, 0)
+    from esim.run import read_child
+    acks, st, hung = read_child(r, pid, 40.0)
+    if hung:
+        from esim.sched import HarnessError
+        shutil.rmtree(tmp, ignore_errors=True)
+        raise HarnessError("real-OS child hung (killed after 40 s)")
     try:
         with open(path, "rb") as f:
             data = f.read()
